@@ -146,9 +146,12 @@ def validity_group_case(seed, shard, i, make_case):
         judge = {"scan": "*", "comps": [["when", ["eq", ["hdr", "1"], ["str", "F"]], ["fn", "fail_all", [], []]]], "mode": "AND"}
         members = members[: r.randint(0, 2)] + [early, judge]
         r.shuffle(members)
-    elif r.random() < 0.12:
+    elif r.random() < 0.25:
         # a member that cannot even be built (unknown function): it fails outside match-component evaluation, at the
         # CsvPaths level; under a CsvPaths-level policy without 'raise' the run goes on and the verdicts must still agree
+        if r.random() < 0.5:
+            # ... next to members that nothing can fail: the broken member alone decides the group's verdict
+            members = [{"scan": r.choice(["*", "1*", "0-2"]), "comps": [["fn", "yes", [], []]], "mode": "AND"} for _ in range(r.randint(1, 2))]
         members.insert(r.randint(0, len(members)), {"scan": "*", "comps": [["fn", r.choice(["nosuchfunction", "yess"]), [], []]], "mode": "AND"})
         cps_pol = r.choice([["collect", "fail"], ["collect", "print"], ["collect", "fail", "print"]])
     method = METHODS[i % len(METHODS)]
